@@ -9,6 +9,12 @@ _DISK_RULE = (
 )
 
 PROPS = {
+    "C01": dict(engine="disk", level="exploration", quick=4000, thorough=200000, rule=_DISK_RULE,
+                expected_probes=["qcow2.l2_tables_gt_128", "qcow2.v2_header_without_v3_fields", "qcow2.extended_l2",
+                                 "qcow2.external_data_file", "qcow2.compressed_clusters", "qcow2.compressed_host_offset_ge_4GiB",
+                                 "qcow2.compressed_offset_unaligned", "qcow2.data_host_offset_ge_4GiB", "qcow2.data_host_offset_ge_1TiB",
+                                 "qcow2.backing_shorter_than_image", "qcow2.run_crosses_l2_boundary", "qcow2.unit_zero", "qcow2.unit_zalloc"],
+                assumptions=["QCOW2 layout per qemu docs/interop/qcow2.txt (no fixture in the repo); refcount structures are placeholders"]),
     "C02": dict(engine="disk", level="exploration", quick=4000, thorough=200000, rule=_DISK_RULE,
                 expected_probes=["vmdk.kind_hosted", "vmdk.kind_stream", "vmdk.kind_cowd", "vmdk.kind_sesparse", "vmdk.kind_flat",
                                  "vmdk.gd_in_footer", "vmdk.gd_entries_gt_128", "vmdk.capacity_not_multiple_of_16_sectors",
@@ -43,6 +49,7 @@ _DISK_NOTE = ("trusted base: the writer stub's reading of the format, the refere
 _DISK_TECH = "deterministic simulation (stub writer peer + simulated storage + reference model oracle), seeded search, ddmin replay"
 
 MANIFEST_TEXT = {
+    "C01": dict(text=_DISK_TEXT, design_ref="DESIGN.md 4/C01", note=_DISK_NOTE, technique=_DISK_TECH),
     "C02": dict(text=_DISK_TEXT, design_ref="DESIGN.md 4/C02", note=_DISK_NOTE, technique=_DISK_TECH),
     "C03": dict(text=_DISK_TEXT, design_ref="DESIGN.md 4/C03", note=_DISK_NOTE, technique=_DISK_TECH),
     "C04": dict(text=_DISK_TEXT, design_ref="DESIGN.md 4/C04", note=_DISK_NOTE, technique=_DISK_TECH),
